@@ -51,17 +51,26 @@ Definition outcome_eqb (a b : outcome) : bool :=
   end.
 
 (* C06, first clause, for one read against a history hs (hs[k] = state after k steps):
-   its result is the abstract result in some state current between invoke and return *)
+   its result is the abstract result in some state current between invoke and return.
+   A read that overlaps Close may also return ErrClosed from the moment Close has set the
+   closed flag (Close takes effect somewhere between its invoke and its return; the state
+   object is swapped later than the flag is set, see Props/C06.v, C06_ex_close_window). *)
+Definition lin_at (g : shared) (o : op) (res : outcome) : Prop :=
+  spec_read g o = Some res \/ (res = ErrClosed /\ g_closed g = true).
+
 Definition lin_read (hs : list sys) (e : read_ev) : Prop :=
   exists k, r_inv e <= k <= r_ret e /\
-            exists s, nth_error hs k = Some s /\ spec_read (sh s) (r_op e) = Some (r_res e).
+            exists s, nth_error hs k = Some s /\ lin_at (sh s) (r_op e) (r_res e).
+
+Definition lin_at_b (g : shared) (o : op) (res : outcome) : bool :=
+  match spec_read g o with
+  | Some r => outcome_eqb r res
+  | None => false
+  end || (outcome_eqb res ErrClosed && g_closed g).
 
 Definition lin_read_b (hs : list sys) (e : read_ev) : bool :=
   existsb (fun k => match nth_error hs k with
-                    | Some s => match spec_read (sh s) (r_op e) with
-                                | Some r => outcome_eqb r (r_res e)
-                                | None => false
-                                end
+                    | Some s => lin_at_b (sh s) (r_op e) (r_res e)
                     | None => false
                     end) (seq (r_inv e) (S (r_ret e - r_inv e))).
 
